@@ -77,6 +77,13 @@ func checkReport(e error) string {
 			if fr.AbsPath != file || fr.Lineno != line {
 				return fail("native-frames", "layer %d frame %d reports %s:%d but the captured program counter is at %s:%d", i, k, fr.AbsPath, fr.Lineno, file, line)
 			}
+			// the function: the last component of the runtime's name, the
+			// "[...]" of instantiated generic functions apart
+			rn := strings.ReplaceAll(fn.Name(), "[...]", "")
+			wantFn := rn[strings.LastIndexByte(rn, '.')+1:]
+			if fr.Function != wantFn || strings.ReplaceAll(fr.Module+"."+fr.Function, "[...]", "") != rn {
+				return fail("native-frames-function", "layer %d frame %d is reported as module %q function %q, the program counter lies in %s", i, k, fr.Module, fr.Function, fn.Name())
+			}
 		}
 	}
 	verbose := redact.Sprintf("%+v", e).Redact().StripMarkers()
